@@ -30,7 +30,7 @@ def template(ctx: Ctx, f: FuncInfo, e: Optional[ast.AST], _depth: int = 0) -> Op
                 if v.format_spec is not None or v.conversion not in (-1, 115):
                     return None
                 sub = template(ctx, f, v.value, _depth + 1)
-                out += sub if sub is not None and isinstance(v.value, (ast.Name, ast.JoinedStr)) and _is_str_local(ctx, f, v.value) else [("expr", ast.unparse(v.value))]
+                out += sub if sub is not None and isinstance(v.value, (ast.Name, ast.JoinedStr)) and _is_str_local(ctx, f, v.value) else [("expr", ctx.vals.canon(f, v.value))]
         return merge(out)
     if isinstance(e, ast.BinOp) and isinstance(e.op, ast.Add):
         l, r = template(ctx, f, e.left, _depth + 1), template(ctx, f, e.right, _depth + 1)
@@ -45,22 +45,23 @@ def template(ctx: Ctx, f: FuncInfo, e: Optional[ast.AST], _depth: int = 0) -> Op
                 if i >= len(args):
                     return None
                 sub = template(ctx, f, args[i], _depth + 1) if _is_str_local(ctx, f, args[i]) else None
-                out += sub if sub is not None else [("expr", ast.unparse(args[i]))]
+                out += sub if sub is not None else [("expr", ctx.vals.canon(f, args[i]))]
                 i += 1
             elif "%" in p:
                 return None
             elif p:
                 out.append(("lit", p))
         return merge(out) if i == len(args) else None
-    if isinstance(e, ast.Call) and isinstance(e.func, ast.Attribute) and e.func.attr == "format" and isinstance(e.func.value, ast.Constant) and not e.keywords:
-        pieces = re.split(r"(\{\})", e.func.value.value)
+    if isinstance(e, ast.Call) and isinstance(e.func, ast.Attribute) and e.func.attr == "format" and not e.keywords and \
+            ctx.vals.const(f, e.func.value) is not None and isinstance(ctx.vals.const(f, e.func.value).value, str):
+        pieces = re.split(r"(\{\})", ctx.vals.const(f, e.func.value).value)
         out, i = [], 0
         for p in pieces:
             if p == "{}":
                 if i >= len(e.args):
                     return None
                 sub = template(ctx, f, e.args[i], _depth + 1) if _is_str_local(ctx, f, e.args[i]) else None
-                out += sub if sub is not None else [("expr", ast.unparse(e.args[i]))]
+                out += sub if sub is not None else [("expr", ctx.vals.canon(f, e.args[i]))]
                 i += 1
             elif "{" in p or "}" in p:
                 return None
@@ -68,14 +69,14 @@ def template(ctx: Ctx, f: FuncInfo, e: Optional[ast.AST], _depth: int = 0) -> Op
                 out.append(("lit", p))
         return merge(out)
     if isinstance(e, ast.Call) and isinstance(e.func, ast.Name) and e.func.id == "str" and len(e.args) == 1:
-        return [("expr", ast.unparse(e.args[0]))]
+        return [("expr", ctx.vals.canon(f, e.args[0]))]
     if isinstance(e, ast.Name):
         if e.id in sc.defs and e.id not in sc.params:
             vals = [h[1] for h in sc.defs[e.id] if h[0] == "assign"] + [h[2] for h in sc.defs[e.id] if h[0] == "ann"]
-            if len(vals) == 1 and len(sc.defs[e.id]) == 1:
+            if len(vals) == 1 and len(sc.defs[e.id]) == 1 and ctx.vals.bindings(f, e.id) is not None:
                 return template(ctx, f, vals[0], _depth + 1)
         return [("expr", e.id)]
-    return [("expr", ast.unparse(e))]
+    return [("expr", ctx.vals.canon(f, e))]
 
 
 def _is_str_local(ctx: Ctx, f: FuncInfo, e: ast.AST) -> bool:
@@ -121,29 +122,59 @@ def r_register_membership(ctx: Ctx, rule: str):
         res = count_paths(ctx.an, f, lambda n: n in addn, interproc=False)
         cnt = res.get(("ret", None), frozenset())
         rep.ob(rule, "every started task is added to exactly one register", cnt == frozenset({1}), func=f, construct="register add count", detail=f"{sorted(cnt)}")
+        V = ctx.vals
+        from ..cfg import bind_args
+
+        def register_keys(fr: FuncInfo, env, e: ast.AST, depth: int = 0):
+            """The keys under which the group table holds the register that `e` evaluates to (None: not recognisably from the table)."""
+            if depth > 6 or e is None:
+                return None
+            fr, env, leaf = V.trace(fr, env, e)
+            P = ctx.eff.paths(fr)
+
+            def table(x: ast.AST) -> bool:
+                p = P.of(x)
+                return p is not None and ctx.eff.rebase(p, fr, env) == GROUPS
+
+            if isinstance(leaf, ast.Call) and isinstance(leaf.func, ast.Attribute) and leaf.func.attr in ("setdefault", "get") and leaf.args and table(leaf.func.value):
+                return [(fr, env, leaf.args[0])]
+            if isinstance(leaf, ast.Subscript) and table(leaf.value):
+                return [(fr, env, leaf.slice)]
+            if isinstance(leaf, ast.Call) and id(leaf) in ctx.an.spliced_at:
+                t = ctx.an.spliced_at[id(leaf)]
+                sub = bind_args(leaf, t, fr, env)
+                out = []
+                rets = [r.value for r in ctx.an.scope(t)._own_nodes() if isinstance(r, ast.Return) and r.value is not None]
+                for r in rets:
+                    ks = register_keys(t, sub, r, depth + 1)
+                    if ks is None:
+                        return None
+                    out += ks
+                return out or None
+            if isinstance(leaf, ast.Call) and isinstance(e, ast.Name):
+                # a fresh register which this frame files in the table itself: `table[key] = reg`
+                cal = ctx.an.scope(fr).callee(leaf)
+                if cal.kind == "ctor":
+                    keys = [(fr, env, t.slice) for x in ctx.an.scope(fr)._own_nodes() if isinstance(x, ast.Assign) and isinstance(x.value, ast.Name) and x.value.id == e.id
+                            for t in x.targets if isinstance(t, ast.Subscript) and table(t.value)]
+                    return keys or None
+            return None
+
         for a in ctx.distinct_sites(addn):
             recv = a.ast.func.value if isinstance(a.ast, ast.Call) and isinstance(a.ast.func, ast.Attribute) else None
-            # the register was obtained from the table under the group_name parameter
-            src = None
-            if isinstance(recv, ast.Name) and recv.id in sc.defs:
-                vals = [h[1] for h in sc.defs[recv.id] if h[0] == "assign"]
-                if len(vals) == 1:
-                    src = vals[0]
-            elif isinstance(recv, (ast.Subscript, ast.Call)):
-                src = recv
-            key = None
-            if isinstance(src, ast.Call) and isinstance(src.func, ast.Attribute) and src.func.attr in ("setdefault", "get") and ctx.eff.paths(f).of(src.func.value) == GROUPS and src.args:
-                key = src.args[0]
-            elif isinstance(src, ast.Subscript) and ctx.eff.paths(f).of(src.value) == GROUPS:
-                key = src.slice
-            rep.ob(rule, "the register is the one filed under the task's group name", expr_role(ctx, f, key) == "GROUP", node=a,
-                   detail=f"register obtained by {ast.unparse(src) if src is not None else None}")
+            keys = register_keys(a.func, a.env, recv) if recv is not None else None
+            roles = set()
+            for kf, kenv, kx in keys or []:
+                lf = V.trace(kf, kenv, kx)
+                roles.add(expr_role(ctx, lf[0], lf[2]))
+            rep.ob(rule, "the register is the one filed under the task's group name", bool(keys) and roles == {"GROUP"}, node=a,
+                   detail=f"register obtained under key(s) {[ast.unparse(k[2]) for k in keys] if keys else None}")
             ins = ctx.nodes(f, lambda n: any(e.kind == "insert" and e.path == RUN for e in ctx.eff.of_node(n)))
             ida = a.ast.args[0] if isinstance(a.ast, ast.Call) and a.ast.args else None
             same = False
             for i in ins:
                 tgt = (i.ast.targets if isinstance(i.ast, ast.Assign) else [i.ast.target])[0] if i.op == "assign" else None
-                if isinstance(tgt, ast.Subscript) and ida is not None and ast.unparse(tgt.slice) == ast.unparse(ida):
+                if isinstance(tgt, ast.Subscript) and ida is not None and V.same((i.func, i.env, tgt.slice), (a.func, a.env, ida)):
                     same = True
             rep.ob(rule, "the id added to the register is the id under which the task is filed as running", same, node=a)
             seg = between([a], ins) | between(ins, [a])
@@ -193,13 +224,21 @@ def r_group_name_generator(ctx: Ctx, rule: str):
             t = template(ctx, f, r.ast.value)
             ok = t is not None and len(t) == 2 and t[0] == ("lit", "start-group-") and t[1] == ("expr", "self._start_calls")
             rep.ob(rule, "start() names its group 'start-group-<number of earlier accepted start calls>'", ok if t is not None else None, node=r, detail=f"template {show(t)}")
-        incs = ctx.nodes(f, lambda n: n.op == "aug" and any(e.path == "self._start_calls" for e in ctx.eff.of_node(n)))
+        def bumps(n: Node) -> bool:
+            if not any(e.path == "self._start_calls" and e.kind in ("aug", "assign") for e in ctx.eff.of_node(n)):
+                return False
+            if n.op == "aug":
+                return True
+            # self._start_calls = <old value> + 1
+            return n.op == "assign" and ctx.vals.canon(n.func, n.ast.value).replace(" ", "") in ("self._start_calls+1", "1+self._start_calls")
+
+        incs = ctx.nodes(f, bumps)
         res = count_paths(ctx.an, f, lambda n: n in incs, interproc=False)
         cnt = res.get(("ret", None), frozenset())
         rep.ob(rule, "the start counter is incremented exactly once per accepted call", cnt == frozenset({1}), func=f, construct="_start_calls increments", detail=f"{sorted(cnt)}")
         for i in ctx.distinct_sites(incs):
             a = i.ast
-            rep.ob(rule, "the start counter goes up by one", isinstance(a.op, ast.Add) and isinstance(a.value, ast.Constant) and a.value.value == 1, node=i)
+            rep.ob(rule, "the start counter goes up by one", i.op == "assign" or (isinstance(a.op, ast.Add) and isinstance(a.value, ast.Constant) and a.value.value == 1), node=i)
             # the name is computed from the counter before the increment (or the increment precedes consistently for every call)
             names = ctx.nodes(f, lambda n: n.op == "assign" and isinstance(n.ast.value, ast.JoinedStr))
     w = [e for e in ctx.effects(fields=["_start_calls"], kinds=["assign", "aug"])]
@@ -248,7 +287,7 @@ def r_get_group_ids(ctx: Ctx, rule: str):
                    detail="" if fresh(nm) else f"`{nm}` may be a live TaskGroupRegister taken from the group table: merging into it files the ids of one group under another")
         rep.floor(rule, "union step in get_group_ids", len(ups) + len([1 for n_, _ in inplace if isinstance(n_, ast.AugAssign)]), 1)
         for u in ups:
-            a = u.ast.args[0] if u.ast.args else None
+            a = ctx.vals.resolve(f, u.ast.args[0]) if u.ast.args else None
             ok = isinstance(a, ast.Subscript) and ctx.eff.paths(f).of(a.value) == GROUPS and isinstance(a.slice, ast.Name)
             lp = u.loops[-1] if u.loops else None
             over = isinstance(lp, ast.For) and isinstance(lp.iter, ast.Name) and lp.iter.id == va and isinstance(lp.target, ast.Name) and ok and a.slice.id == lp.target.id
@@ -297,16 +336,30 @@ def r_id_discipline(ctx: Ctx, rule: str):
         for k, c in res.items():
             if k[0] != "ret":
                 rep.ob(rule, "no id is consumed by a start that fails (ids stay dense)", c == frozenset({0}), func=f, construct=f"exit {k[0]}:{k[1][0].rpartition('.')[2]}", detail=str(sorted(c)))
-        # the id variable
-        idvars = [nm for nm, hows in sc.defs.items() if any(h[0] == "assign" and ctx.eff.paths(f).of(h[1]) == NUM for h in hows)]
-        def real_defs(nm):
-            return [h for h in sc.defs[nm] if not ((h[0] == "assign" and isinstance(h[1], ast.Constant) and h[1].value is None) or
-                                                   (h[0] == "ann" and isinstance(h[2], ast.Constant) and h[2].value is None))]
-        rep.ob(rule, "the task id is read from the counter", len(idvars) == 1 and len(real_defs(idvars[0])) == 1, func=f, construct=f"id variable(s): {idvars}")
-        if len(idvars) != 1:
+        # the id: a local bound once to the counter's value (in _start_task itself or in a helper spliced into it)
+        V = ctx.vals
+
+        def counter_read(n: Node) -> bool:
+            a = n.ast
+            if n.op != "assign" or not isinstance(a, (ast.Assign, ast.AnnAssign)) or getattr(a, "value", None) is None:
+                return False
+            tg = a.targets if isinstance(a, ast.Assign) else [a.target]
+            return all(isinstance(t, ast.Name) for t in tg) and ctx.path_at(n, a.value) == NUM
+
+        reads = ctx.nodes(f, counter_read)
+        rsites = ctx.distinct_sites(reads)
+        idvars = sorted({(t.id) for r in rsites for t in (r.ast.targets if isinstance(r.ast, ast.Assign) else [r.ast.target])})
+        once = len(rsites) == 1 and len(idvars) == 1 and len([b for b in (V.bindings(rsites[0].func, idvars[0]) or [None, None])
+                                                                 if not (isinstance(b, ast.Constant) and b.value is None)]) == 1
+        rep.ob(rule, "the task id is read from the counter", once, func=f, construct=f"id variable(s): {idvars}")
+        if not once:
             continue
-        idv = idvars[0]
-        reads = ctx.nodes(f, lambda n: n.op == "assign" and isinstance(n.ast, ast.Assign) and any(isinstance(t, ast.Name) and t.id == idv for t in n.ast.targets))
+        from ..cfg import strip_cast as _sc
+        leaf = _sc(rsites[0].ast.value)
+
+        def is_id(n: Node, e: Optional[ast.AST]) -> bool:
+            return e is not None and V.trace(n.func, n.env, e)[2] is leaf
+
         seg = between(reads, incs) | between(incs, reads)
         bad = [m for m in seg if ctx.effective(m) or m.user]
         rep.ob(rule, "reading the id and incrementing the counter form one atomic segment (no two tasks can read the same value)", not bad, func=f,
@@ -319,17 +372,18 @@ def r_id_discipline(ctx: Ctx, rule: str):
         ins = ctx.distinct_sites(ctx.nodes(f, lambda n: n.op == "assign" and any(e.kind == "insert" and e.path == RUN for e in ctx.eff.of_node(n))))
         for i in ins:
             tgt = (i.ast.targets if isinstance(i.ast, ast.Assign) else [i.ast.target])[0]
-            rep.ob(rule, "the running registry is keyed by the id", isinstance(tgt, ast.Subscript) and isinstance(tgt.slice, ast.Name) and tgt.slice.id == idv, node=i)
+            rep.ob(rule, "the running registry is keyed by the id", isinstance(tgt, ast.Subscript) and is_id(i, tgt.slice), node=i)
         for c in ctx.distinct_sites(ctx.nodes(f, lambda n: ctx.is_call_to(n, "_task_wrapper"))):
             t = c.callee.targets[0]
             a = ctx.call_arg(c.ast, t, "task_id")
-            rep.ob(rule, "the wrapper (and through it both callbacks) receives the id", isinstance(a, ast.Name) and a.id == idv, node=c)
+            rep.ob(rule, "the wrapper (and through it both callbacks) receives the id", is_id(c, a), node=c)
         for c in ctx.distinct_sites(ctx.nodes(f, lambda n: n.op == "call" and n.callee is not None and n.callee.kind == "ext" and n.callee.name in ("asyncio.tasks.create_task", "asyncio.create_task"))):
             nm = next((k.value for k in c.ast.keywords if k.arg == "name"), None)
-            ok = isinstance(nm, ast.Call) and any(t.name == "_task_name" for t in sc.callee(nm).targets) and len(nm.args) == 1 and isinstance(nm.args[0], ast.Name) and nm.args[0].id == idv
+            nm = V.resolve(c.func, nm) if nm is not None else None
+            ok = isinstance(nm, ast.Call) and any(t.name == "_task_name" for t in ctx.an.scope(c.func).callee(nm).targets) and len(nm.args) == 1 and is_id(c, nm.args[0])
             rep.ob(rule, "the task is named with _task_name(<its id>)", ok, node=c, detail=f"name={ast.unparse(nm) if nm is not None else None}")
-        for r in ctx.distinct_sites(ctx.nodes(f, lambda n: n.op == "return" and n.ast.value is not None)):
-            rep.ob(rule, "_start_task returns the id", isinstance(r.ast.value, ast.Name) and r.ast.value.id == idv, node=r)
+        for r in ctx.distinct_sites(ctx.nodes(f, lambda n: n.op == "return" and n.func is f and n.ast.value is not None)):
+            rep.ob(rule, "_start_task returns the id", is_id(r, r.ast.value), node=r)
 
 
 def r_name_templates(ctx: Ctx, rule: str):
@@ -373,7 +427,7 @@ def r_instance_state(ctx: Ctx, rule: str):
         g = ctx.an.cfg(f)
         for r in rets:
             v = r.ast.value
-            txt = ast.unparse(v).replace(" ", "")
+            txt = ctx.vals.canon(f, v).replace(" ", "")
             ok = None
             if re.fullmatch(r"len\((cls|self)\._pools\)-1", txt):
                 ok = bool(apps) and dominated_by_completion(g, apps, r)
